@@ -1422,6 +1422,41 @@ def ifaddr_cases(platform):
                                                       "192.168.1.255", None]]))
         cases.append(dict(label="posix_ptp", rows=[["tun0", int(socket.AF_INET), "10.8.0.2", "255.255.255.255",
                                                     None, "10.8.0.1"]]))
+    # generated tables: several addresses per adapter and several adapters per table, computable and un-computable netmasks
+    # side by side (a non-contiguous IPv4 mask; an IPv6 address carrying an IPv4-style mask, which is what the Windows
+    # native layer hands over for an IPv6 address listed after an IPv4 one; no mask at all) - each row is judged by itself
+    import random
+    rng = random.Random(f"c20-ifaddrs-{platform}")
+    v4 = int(socket.AF_INET)
+    v6 = int(socket.AF_INET6)
+    for t in range(60):
+        rows, used = [], set()
+        for _ in range(rng.randrange(2, 8)):
+            nic = rng.choice(["eth0", "eth1", "Wi-Fi", "lo", "vEthernet (WSL)"])
+            kind = rng.choice(["v4", "v4", "v4_badmask", "v4_nomask", "v6_prefix", "v6_v4mask", "v6_nomask", "mac"])
+            if kind == "mac":
+                n = rng.randrange(1, 7)
+                a = mac(*["%02X" % rng.randrange(256) for _ in range(n)])
+                row = [nic, link, a, None, None, None]
+            elif kind.startswith("v4"):
+                a = "%d.%d.%d.%d" % (rng.randrange(1, 224), rng.randrange(256), rng.randrange(256), rng.randrange(1, 255))
+                m = {"v4": rng.choice(["255.255.255.0", "255.255.0.0", "255.0.0.0", "255.255.252.0", "255.255.255.255",
+                                       "255.255.255.128", "0.0.0.0"]),
+                     "v4_badmask": rng.choice(["255.0.255.0", "255.255.0.255", "0.255.0.0", "255.255.255.1", "garbage"]),
+                     "v4_nomask": None}[kind]
+                row = [nic, v4, a, m, None, None]
+            else:
+                a = rng.choice(["fe80::%x", "2001:db8::%x", "fd00:1:2:3::%x"]) % rng.randrange(1, 65535)
+                m = {"v6_prefix": rng.choice(["64", "128", "48", "10", "0"]),
+                     "v6_v4mask": rng.choice(["255.255.255.0", "255.0.0.0"]),
+                     "v6_nomask": None}[kind]
+                row = [nic, v6, a, m, None, None]
+            if (row[0], row[2]) in used or any(r[2] == row[2] for r in rows):
+                continue
+            used.add((row[0], row[2]))
+            rows.append(row)
+        if len(rows) >= 2:
+            cases.append(dict(label=f"generated_{t}", rows=rows))
     return [dict(k="ifaddrs", platform=platform, **c) for c in cases]
 
 
